@@ -266,11 +266,91 @@ func ruleU3(c *Ctx) {
 	c.check(n >= 1, "U3", "success-returns", fn.Pos(), fmt.Sprintf("%d success return(s) found", n))
 }
 
+// U4: ParseURI fills in what it finds and never clears what it does not find; it relies on a zeroed destination.
+// Every call of ParseURI inside the package therefore hands it the address of a fresh local (an allocation with no
+// store before the call) — never a caller-owned structure that may hold components of an earlier URI.
+func ruleU4(c *Ctx) {
+	target := c.SFuncs["ParseURI"]
+	if target == nil {
+		c.fail("U4", "ParseURI", token.NoPos, "not found")
+		return
+	}
+	var names []string
+	for k := range c.SFuncs {
+		names = append(names, k)
+	}
+	sort.Strings(names)
+	n := 0
+	for _, k := range names {
+		fn := c.SFuncs[k]
+		cnt := 0
+		for _, b := range fn.Blocks {
+			for _, ins := range b.Instrs {
+				call, ok := ins.(*ssa.Call)
+				if !ok || call.Call.StaticCallee() != target || len(call.Call.Args) < 2 {
+					continue
+				}
+				n++
+				cnt++
+				dst := call.Call.Args[1]
+				al, isAlloc := dst.(*ssa.Alloc)
+				fresh := isAlloc
+				why := "the destination is not the address of a local variable"
+				if isAlloc {
+					why = ""
+					// no store into the local that can reach the call
+					for _, r := range *al.Referrers() {
+						st, ok := r.(*ssa.Store)
+						if !ok || st.Addr != ssa.Value(al) {
+							if fa, ok := r.(*ssa.FieldAddr); ok {
+								for _, r2 := range *fa.Referrers() {
+									if st2, ok := r2.(*ssa.Store); ok && st2.Addr == ssa.Value(fa) && (st2.Block().Dominates(b) || reaches(st2.Block(), b)) && st2.Block() != b {
+										fresh, why = false, "a field of the local is written before the call"
+									}
+								}
+							}
+							continue
+						}
+						if kk, ok := st.Val.(*ssa.Const); ok && kk.Value == nil {
+							continue // zero-value initialisation
+						}
+						if reaches(st.Block(), b) || st.Block() == b {
+							fresh, why = false, "the local is written before the call"
+						}
+					}
+				}
+				c.check(fresh, "U4", fmt.Sprintf("%s:ParseURI-destination#%d", k, cnt), call.Pos(), "ParseURI is handed a fresh zero-valued local as destination (it never clears components it does not find) "+why)
+			}
+		}
+	}
+	c.check(n >= 2, "U4", "call-sites", token.NoPos, fmt.Sprintf("%d ParseURI call sites inside the package (frozen minimum 2)", n))
+}
+
+func reaches(from, to *ssa.BasicBlock) bool {
+	seen := map[*ssa.BasicBlock]bool{}
+	work := []*ssa.BasicBlock{from}
+	for len(work) > 0 {
+		b := work[len(work)-1]
+		work = work[:len(work)-1]
+		for _, s := range b.Succs {
+			if s == to {
+				return true
+			}
+			if !seen[s] {
+				seen[s] = true
+				work = append(work, s)
+			}
+		}
+	}
+	return false
+}
+
 func init() {
 	register(&PropDef{
 		ID: "C14",
 		Rules: []Rule{
 			{"U1", "from the extracted ParseURI automaton (18 states x byte classes, loop-carried locals tracked): every transition that closes a component does X.Set(s,i) at the delimiter and sets s = i+1; a late '@' rebuilds User/Pass from (Host.Offs, passOffs, passOffs+1, i), resets every later component, PortNo and the port accumulator, and restarts at the host; all sites record the password candidate as the ':' position; the end-of-input switch handles every state and closes the open component with Set(s,i)", ruleU1},
+			{"U4", "ParseURI never clears components it does not find, so inside the package it is only ever handed the address of a fresh zero-valued local (no store before the call) — never a caller-owned structure that may still hold an earlier URI's components", ruleU4},
 			{"U3", "every success return of ParseURI is dominated by the test of the parsed scheme that performs the tel: fix-up (number moved from the host to the user slot): no early success return bypasses it", ruleU3},
 			{"U2", "scheme table: the three little-endian constants equal sip: / sips / tel: lower-cased, the fold precedes the switch, sips needs uri[4]==':' under the length guard, tel: moves the number to User", ruleU2},
 		},
